@@ -34,7 +34,7 @@ THEOREMS = [P + n for n in [
     "rewrite_between_sound", "rewrite_between_keeps_grouping", "rewrite_between_not_only_witness", "simplify_not_sound", "conn_const_sound", "conn_const_exact", "bin_pair_sound",
     "simplify_neg_neg_sound", "simplify_equality_sound", "simplify_parens_sound", "flatten_sound",
     "simplify_conditionals_if_sound", "simplify_conditionals_sound", "simplify_conditionals_needs_first_branch",
-    "simplify_conditionals_keeps_grouping",
+    "simplify_conditionals_keeps_grouping", "simplify_conditionals_flag_skips_after_pop",
     "simplify_coalesce_head_sound", "simplify_coalesce_cmp_sound", "simplify_coalesce_needs_nonnull_constant",
     "simplify_coalesce_guard_subject_needed",
     "simplify_comparison_bounds_sound", "simplify_comparison_tie_needed",
@@ -210,6 +210,33 @@ def distribute_uses_from_ast(chk: Check) -> str:
             + ", ".join(f"⟨{'true' if u[0] else 'false'}, .{u[1]}, {'true' if u[2] else 'false'}⟩" for u in uses) + "]\n")
 
 
+def _case_loop_pinned() -> dict:
+    """simplify_conditionals' CASE loop as the model's `caseLoop` mirrors it: a for-loop over the LIVE `ifs` list, a pop of the
+    current branch inside it (so the next branch is skipped), and the early return of a statically-true branch guarded by
+    the identity test `case is expression.args["ifs"][0]` followed by `break`"""
+    out = {"case_loop_header": False, "case_pop_in_loop": False, "case_first_branch_identity": False, "case_no_extra_state": False}
+    src = open(os.path.join(REPO, "sqlglot", "optimizer", "simplify.py"), encoding="utf-8").read()
+    norm = lambda n: re.sub(r"\s+", "", ast.unparse(n)).replace('"', "'")  # noqa
+    for cls in [n for n in ast.parse(src).body if isinstance(n, ast.ClassDef) and n.name == "Simplifier"]:
+        for fn in [n for n in cls.body if isinstance(n, ast.FunctionDef) and n.name == "simplify_conditionals"]:
+            loops = [n for n in ast.walk(fn) if isinstance(n, ast.For)]
+            if len(loops) != 1:
+                return out
+            loop = loops[0]
+            out["case_loop_header"] = norm(loop.target) == "case" and norm(loop.iter) == "expression.args['ifs']" and not loop.orelse
+            out["case_pop_in_loop"] = any(isinstance(n, ast.Call) and norm(n.func) == "case.pop" for n in ast.walk(loop))
+            for st in loop.body:
+                if isinstance(st, ast.If) and norm(st.test) == "always_true(cond)":
+                    b = st.body
+                    out["case_first_branch_identity"] = (
+                        len(b) == 2 and isinstance(b[0], ast.If) and norm(b[0].test) == "caseisexpression.args['ifs'][0]"
+                        and len(b[0].body) == 1 and isinstance(b[0].body[0], ast.Return) and not b[0].orelse and isinstance(b[1], ast.Break))
+            # no loop-carried state besides the list itself: the only names assigned in the loop are `cond`
+            assigned = {norm(t) for n in ast.walk(loop) if isinstance(n, ast.Assign) for t in n.targets}
+            out["case_no_extra_state"] = assigned <= {"cond"}
+    return out
+
+
 def _between_wrap_pinned() -> bool:
     src = open(os.path.join(REPO, "sqlglot", "optimizer", "simplify.py"), encoding="utf-8").read()
     for cls in [n for n in ast.parse(src).body if isinstance(n, ast.ClassDef) and n.name == "Simplifier"]:
@@ -258,6 +285,7 @@ def translate(chk: Check) -> str:
         "wrap_helper": hasattr(S, "_parenthesize_for_parent"),
         # rewrite_between's `wrap`: isinstance(parent, (Binary, Unary, Predicate)) and not isinstance(parent, (Connector, Paren))
         "between_wrap": _between_wrap_pinned(),
+        **_case_loop_pinned(),
         "comparisons": set(Sx.COMPARISONS) == set(classes + [exp.Is]),
         "lt_lte": tuple(Sx.LT_LTE) == (exp.LT, exp.LTE) and tuple(Sx.GT_GTE) == (exp.GT, exp.GTE),
         "constants": set(exp.CONSTANTS) == {exp.Literal, exp.Boolean, exp.Null} and set(exp.NONNULL_CONSTANTS) == {exp.Literal, exp.Boolean},
@@ -602,6 +630,22 @@ def coalesce_template(rng):
         args = [rng.choice(["b0", "b1", "b2", "i0 > 1", "NOT b1"]) for _ in range(n)] + [rng.choice(["TRUE", "FALSE", "NULL"])]
         ctx = rng.choice(COALESCE_CMP_BOOL)
     return ctx.replace("{C}", "COALESCE(" + ", ".join(args) + ")")
+
+
+# CASE with 3-4 WHENs over every order of {statically false, NULL, undecided, statically true} conditions (also conditions that
+# only become constant after folding), distinct branch values: the loop pops constant-false branches from the list it iterates
+CASE_CONDS = {"F": ["FALSE", "1 = 2", "0"], "N": ["NULL", "NULL = 1", "NULL"], "U": ["b0", "i0 > 0", "b1"], "T": ["TRUE", "1 = 1", "1"]}
+
+
+def case_cases(with_index=False):
+    idx = 0
+    for n in (3, 4):
+        for order in itertools.product("FNUT", repeat=n):
+            for flavour in ((0, 1) if n == 3 else (0,)):
+                whens = " ".join(f"WHEN {CASE_CONDS[k][(flavour + j) % 3 if flavour else 0]} THEN {10 * (j + 1)}" for j, k in enumerate(order))
+                q = f"CASE {whens}" + (" ELSE 99" if (idx % 2) else "") + " END"
+                idx += 1
+                yield (n, flavour, q) if with_index else q
 
 
 CONN_VARS = ["b0", "b1", "b2", "b3", "b4", "b5", "b6", "b7"]
@@ -1223,7 +1267,7 @@ def classify(diffs):
     """kind of a semantic difference: which results are confused"""
     kinds = set()
     for env, u, v in diffs:
-        if u is not None and v is not None and truth(u) == truth(v):
+        if u is not None and v is not None and truth(u) == truth(v) and isinstance(u, bool) != isinstance(v, bool):
             kinds.add("same-truth")  # TRUE vs 5: the same 3-valued truth value, another value (a numeric left as a predicate)
         elif u is None and v is not None:
             kinds.add("null-to-" + ("true" if truth(v) else "false") if isinstance(v, bool) or v in (0, 1) else "null-to-value")
@@ -1967,6 +2011,8 @@ CORPUS = [
     ("i0 BETWEEN 1 AND 2 IS NULL", "untyped", "cnf"), ("i0 IN (1, 2) IS NULL", "untyped", "simplify"), ("i0 BETWEEN 1 AND 2 IN (b0, TRUE)", "untyped", "simplify"),
     ("(i0 AND TRUE) AND (1 = 1)", "typed", "simplify"), ("(i0 AND TRUE) AND TRUE", "untyped", "simplify"), ("(i0 OR FALSE) AND TRUE", "typed", "simplify"),
     ("COALESCE(i0, i1, 1) = 2", "untyped", "simplify_co"), ("2 < COALESCE(i0, i1, i2, 1)", "typed", "simplify_co"),
+    ("CASE WHEN FALSE THEN 10 WHEN b0 THEN 20 WHEN TRUE THEN 30 END", "untyped", "simplify"),
+    ("CASE WHEN 1 = 2 THEN 10 WHEN i0 > 0 THEN 20 WHEN 1 = 1 THEN 30 ELSE 40 END", "untyped", "simplify"),
     ("-NULL IS NULL", "untyped", "simplify"), ("i0 > 1 AND -NULL IS NULL", "untyped", "simplify"),
     ("i0 - 5 - 3 > 1", "untyped", "simplify"), ("5 - i0 < 2", "untyped", "simplify"), ("b0 AND TRUE", "untyped", "simplify"),
 ]
@@ -2069,6 +2115,14 @@ def run(chk: Check) -> None:
         q = conn_template(rng)
         for api in (("cnf", "dnf") if rng.random() < 0.7 else ("simplify",)):
             one(q, rng.choice(["untyped", "typed"]), api, dlist[0])
+    # CASE sweep: every order of constant-false / NULL / undecided / constant-true WHENs (3 branches: all; 4: sampled in quick)
+    for n_, flavour, q in case_cases(with_index=True):
+        if chk.quick and n_ == 4 and rng.random() > 0.25:
+            continue
+        one(q, "untyped", "simplify", dlist[0])
+        if flavour == 0 and n_ == 3:
+            one(f"({q}) + i1 > 15 AND b2", "untyped", rng.choice(["simplify", "simplify_cp", "cnf"]), dlist[0])
+    marks["case"] = round(time.time() - t0, 1)
     # COALESCE sweep under coalesce_simplification=True with every dialect-flag combination
     for ai, ci, q in coalesce_cases(with_index=True):
         if chk.quick and not (ai in (1, 101) and ci < 4) and (ai in (3, 6, 10) or rng.random() > 0.08):
